@@ -2,6 +2,7 @@ package eng
 
 import (
 	"fmt"
+	"strconv"
 	"go/constant"
 	"go/token"
 	"go/types"
@@ -37,6 +38,7 @@ type specCtx struct {
 	record   map[string]*Sort
 	noUnfold bool
 	results  []Val
+	iters    func(ord int) *Term // value of "#nK": completed iterations of loop K when the function returned
 }
 
 func (c *specCtx) sub() *specCtx {
@@ -248,6 +250,13 @@ func (c *specCtx) eval(x Expr) Val {
 				c.fail("#iter outside loop")
 			}
 			return VInt{c.iter}
+		}
+		if strings.HasPrefix(n.Name, "#n") {
+			ord, err := strconv.Atoi(n.Name[2:])
+			if err != nil || c.iters == nil {
+				c.fail("%s not available here", n.Name)
+			}
+			return VInt{c.iters(ord)}
 		}
 		if v, ok := c.env[n.Name]; ok {
 			return v
@@ -990,6 +999,7 @@ func (c *specCtx) contractOf(key string, args []Expr, preOnly bool) Val {
 	sub.env = map[string]Val{}
 	sub.pkg = pkg
 	sub.fr = nil
+	sub.iters = c.e.freshIters(c.st, key)
 	for i, a := range args {
 		sub.env[names[i]] = c.eval(a)
 	}
@@ -1026,4 +1036,18 @@ func findIndexBy(e Expr, name string) *EIndex {
 		return findIndexBy(n.X, name)
 	}
 	return nil
+}
+
+// freshIters gives each "#nK" of an assumed contract instance its own existential (skolem) symbol.
+func (e *Engine) freshIters(st *State, hint string) func(int) *Term {
+	m := map[int]*Term{}
+	return func(ord int) *Term {
+		if t, ok := m[ord]; ok {
+			return t
+		}
+		t := e.fresh(fmt.Sprintf("%s.n%d", hint, ord), IntS)
+		st.assume(Ge(t, Zero))
+		m[ord] = t
+		return t
+	}
 }
